@@ -2,7 +2,7 @@ SPECIFICATION Spec
 CONSTANTS
   MaxRows = 2
   MaxW = 2
-  SelMenu = {1, 2, 3}
+  SelMenu = {2, 3}
   WireMode = "full"
   InitMode = "empty"
   SortPI = TRUE
